@@ -176,3 +176,86 @@
 ; size reported by an os.FileInfo value
 (declare-fun statsize (Int) Int)
 ;@spec statsize smt=statsize args=Int res=Int
+
+; ===========================================================================
+; Abstract trees (DESIGN section 4). An item is an abstract id; ikey/ipri/ibytes/ival give its
+; order position under the collection's comparator, priority, key+value byte count and value id.
+(declare-datatypes ((Tree 0)) (((Leaf) (Node (tl Tree) (ti Int) (tr Tree)))))
+(declare-fun ikey (Int) Int)
+(declare-fun ipri (Int) Int)
+(declare-fun ibytes (Int) Int)
+; recursive spec functions are uninterpreted with pattern-guarded one-level unfolding
+(declare-fun mem (Int Tree) Bool)     ; key position k occurs in the tree
+(declare-fun itemAt (Int Tree) Int)   ; the item stored under key position k
+(declare-fun cnt (Tree) Int)
+(declare-fun sumb (Tree) Int)
+(declare-fun bst (Tree) Bool)
+(declare-fun hp (Tree) Bool)          ; no child outranks its parent
+(declare-fun rootPri (Tree) Int)
+(assert (forall ((k Int)) (! (not (mem k Leaf)) :pattern ((mem k Leaf)))))
+(assert (forall ((k Int) (l Tree) (i Int) (r Tree))
+  (! (= (mem k (Node l i r)) (or (= k (ikey i)) (mem k l) (mem k r))) :pattern ((mem k (Node l i r))))))
+; upward facts: membership in a subtree is membership in the tree
+(assert (forall ((k Int) (l Tree) (i Int) (r Tree)) (! (=> (mem k l) (mem k (Node l i r))) :pattern ((mem k l) (Node l i r)))))
+(assert (forall ((k Int) (l Tree) (i Int) (r Tree)) (! (=> (mem k r) (mem k (Node l i r))) :pattern ((mem k r) (Node l i r)))))
+(assert (forall ((l Tree) (i Int) (r Tree)) (! (mem (ikey i) (Node l i r)) :pattern ((Node l i r)))))
+(assert (forall ((k Int) (l Tree) (i Int) (r Tree))
+  (! (= (itemAt k (Node l i r)) (ite (= k (ikey i)) i (ite (< k (ikey i)) (itemAt k l) (itemAt k r)))) :pattern ((itemAt k (Node l i r))))))
+(assert (= (cnt Leaf) 0))
+(assert (= (sumb Leaf) 0))
+(assert (forall ((l Tree) (i Int) (r Tree)) (! (= (cnt (Node l i r)) (+ (cnt l) 1 (cnt r))) :pattern ((Node l i r)))))
+(assert (forall ((l Tree) (i Int) (r Tree)) (! (= (sumb (Node l i r)) (+ (sumb l) (ibytes i) (sumb r))) :pattern ((Node l i r)))))
+(assert (forall ((t Tree)) (! (>= (cnt t) 0) :pattern ((cnt t)))))
+(assert (forall ((t Tree)) (! (>= (sumb t) 0) :pattern ((sumb t)))))
+(assert (forall ((i Int)) (! (>= (ibytes i) 0) :pattern ((ibytes i)))))
+(assert (bst Leaf))
+(assert (forall ((l Tree) (i Int) (r Tree))
+  (! (= (bst (Node l i r))
+        (and (bst l) (bst r)
+             (forall ((k Int)) (! (=> (mem k l) (< k (ikey i))) :pattern ((mem k l))))
+             (forall ((k Int)) (! (=> (mem k r) (> k (ikey i))) :pattern ((mem k r))))))
+     :pattern ((bst (Node l i r))))))
+(assert (= (rootPri Leaf) (- 1)))
+(assert (forall ((l Tree) (i Int) (r Tree)) (! (= (rootPri (Node l i r)) (ipri i)) :pattern ((Node l i r)))))
+(assert (hp Leaf))
+(assert (forall ((l Tree) (i Int) (r Tree))
+  (! (= (hp (Node l i r)) (and (hp l) (hp r) (<= (rootPri l) (ipri i)) (<= (rootPri r) (ipri i)))) :pattern ((hp (Node l i r))))))
+;@spec mem smt=mem args=Int,Tree res=Bool
+;@spec itemAt smt=itemAt args=Int,Tree res=Int
+;@spec cnt smt=cnt args=Tree res=Int
+;@spec sumb smt=sumb args=Tree res=Int
+;@spec bst smt=bst args=Tree res=Bool
+;@spec hp smt=hp args=Tree res=Bool
+;@spec rootPri smt=rootPri args=Tree res=Int
+;@spec ikey smt=ikey args=Int res=Int
+;@spec ipri smt=ipri args=Int res=Int
+;@spec ibytes smt=ibytes args=Int res=Int
+(define-fun isLeaf ((t Tree)) Bool (= t Leaf))
+;@spec isLeaf smt=isLeaf args=Tree res=Bool
+(define-fun mkTree ((l Tree) (i Int) (r Tree)) Tree (Node l i r))
+;@spec mkTree smt=mkTree args=Tree,Int,Tree res=Tree
+(define-fun leafTree () Tree Leaf)
+;@spec leafTree smt=leafTree args= res=Tree
+(define-fun rootItem ((t Tree)) Int (ti t))
+(define-fun leftTree ((t Tree)) Tree (tl t))
+(define-fun rightTree ((t Tree)) Tree (tr t))
+;@spec rootItem smt=rootItem args=Tree res=Int
+;@spec leftTree smt=leftTree args=Tree res=Tree
+;@spec rightTree smt=rightTree args=Tree res=Tree
+
+; ghost denotations: tv(n) is the (time-independent) tree value of an in-memory node, ia(i) the abstract
+; item of an in-memory item. What a nodeLoc / itemLoc SLOT denotes is ghost state (arrays tvs / ias in the
+; contract file), updated explicitly by the contracts of the few functions that write slots.
+(declare-fun tv (Int) Tree)
+(declare-fun ia (Int) Int)
+;@spec tv smt=tv args=Int res=Tree
+;@spec ia smt=ia args=Int res=Int
+; order position of a key given as bytes (under the collection's comparator, A11)
+(declare-fun ordOf ((Array Int Int) Int Int) Int)
+;@spec ordOf smt=ordOf args=(Array_Int_Int),Int,Int res=Int
+; node invariant: the node's tree value is built from what its slots denote, its aggregates are exact
+(define-fun nodeInv ((NN (Array Int Int)) (NB (Array Int Int)) (ILOC (Array Int Int)) (IITEM (Array Int Int)) (O (Array Int Int)) (L (Array Int Int)) (TVS (Array Int Tree)) (IAS (Array Int Int)) (n Int)) Bool
+  (and (= (tv n) (Node (select TVS (|node.left@| n)) (select IAS (|node.item@| n)) (select TVS (|node.right@| n))))
+       (= (select NN n) (cnt (tv n))) (= (select NB n) (sumb (tv n)))
+       (or (not (= (select IITEM (|node.item@| n)) 0)) (not (emptyLoc O L (select ILOC (|node.item@| n)))))))
+;@spec nodeInv smt=nodeInv args=Int res=Bool heap=node.numNodes,node.numBytes,itemLoc.loc,itemLoc.item,ploc.Offset,ploc.Length ghost=tvs,ias
